@@ -384,6 +384,46 @@ def jump_moments(ctx: Ctx, recs: List[Dict[str, Any]]) -> None:
                           {**base, "rates_used": sorted(set(rates)), "lambda_dt": L})
 
 
+def antithetic_engine(ctx: Ctx) -> None:
+    """The antithetic engine on SUPPLIED normals (torch.randn replaced for the call): every row it hands out is +z or -z for one
+    supplied row z - so each row has the law of the supplied draws, whatever the number of paths - every supplied row is used at
+    most once with each sign, and the rows come in antithetic pairs as far as the size allows.  Odd and even sizes, shuffled or not."""
+    from pfhedge.stochastic import randn_antithetic
+    for n in (1, 2, 3, 4, 5, 8):
+        for shuffle in (True, False):
+            half = -(-n // 2)
+            Z = torch.tensor([[float(2 * i + 1), float(-(i + 2)) / 4, 0.5 ** i] for i in range(half)], dtype=DT)
+            asked: List[Any] = []
+
+            def supplied(*size, **kw):
+                asked.append(tuple(size))
+                if tuple(size) != tuple(Z.shape):
+                    raise MachineryError(f"randn_antithetic drew normals of shape {size}; {tuple(Z.shape)} are needed for {n} rows")
+                return Z.clone().to(kw.get("dtype") or DT)
+            try:
+                with patched(torch, "randn", supplied):
+                    out = randn_antithetic(n, 3, dtype=DT, shuffle=shuffle)
+            except MachineryError as e:
+                ctx.violation("engine:antithetic:draws", str(e), {"n": n})
+                continue
+            except Exception as e:
+                ctx.violation("engine:antithetic:raises", f"randn_antithetic({n}, 3) raised {type(e).__name__}", {"error": repr(e)[:200]})
+                continue
+            ctx.count(("antithetic", n, shuffle), n=1)
+            used = set()
+            ok = tuple(out.shape) == (n, 3)
+            for r in out.tolist() if ok else []:
+                hit = [(i, sg) for i in range(half) for sg in (1, -1) if r == [sg * v for v in Z[i].tolist()]]
+                if not hit or hit[0] in used:
+                    ok = False
+                    break
+                used.add(hit[0])
+            pairs = sum(1 for i in range(half) if (i, 1) in used and (i, -1) in used)
+            if not ok or pairs != n // 2:
+                ctx.violation("engine:antithetic", f"randn_antithetic({n}, 3, shuffle={shuffle}) does not hand out the supplied normals and their negatives",
+                              {"supplied": Z.tolist(), "returned": out.tolist() if tuple(out.shape) == (n, 3) else list(out.shape), "antithetic_pairs": pairs, "expected_pairs": n // 2})
+
+
 def vasicek_long_horizon(ctx: Ctx) -> None:
     """The exact Ornstein-Uhlenbeck transition applied step by step over a LONG horizon (kappa T in the hundreds and beyond 700),
     float64 and float32, on supplied normals: the path equals the recursion x' = theta + (x - theta) e^(-kappa dt) + vola z computed
@@ -455,6 +495,7 @@ def heston_steps(ctx: Ctx, recs: List[Dict[str, Any]]) -> None:
 
 def check(ctx: Ctx) -> None:
     vasicek_long_horizon(ctx)
+    antithetic_engine(ctx)
     hes = ctx.tlc("MC_Heston", "MC_Heston.cfg", workers=4)
     hrecs = [r for r in hes.records if r.get("rec") == "heston_step"]
     if len(hrecs) < 100:
